@@ -395,6 +395,33 @@ def replay_sheet(css, options):
     return json.loads(r.stdout)[0]
 
 
+def map_mismatch(css, opts):
+    """source-map oracle for replay: every entry must lie in range and in order, and an entry of a copied token must point at
+    output text that starts like its source token (a closer may point at its opener).  -> (why | None, output text)"""
+    req = [{'css': css, 'options': opts, 'source_map': True}]
+    r = common.replay(['css'], stdin=json.dumps(req))
+    out = json.loads(r.stdout)[0]
+    text = out.get('normal', '')
+    u16 = text.encode('utf-16-le')
+    src_lines = css.split('\n')
+    prevc = -1
+    for (dl, dc, sl, sc, name) in out.get('map', []):
+        tail = u16[dc * 2:].decode('utf-16-le', errors='ignore')
+        if dl != 0 or dc < prevc or dc * 2 > len(u16):
+            return 'entry (%d,%d)<-(%d,%d) out of order / out of range' % (dl, dc, sl, sc), text
+        prevc = dc
+        if name is None and sl < len(src_lines):
+            s16 = src_lines[sl].encode('utf-16-le')
+            stail = s16[sc * 2:].decode('utf-16-le', errors='ignore')
+            if stail and tail:
+                a, b = stail[0], tail[0]
+                same = a == b or (b in ')}]' and re.match(r'^([\[{(]|[-\w\\\u0080-\U0010ffff]+\()', stail)) or (a in '\'"' and b in '\'"') or (a.isspace() and b.isspace()) or a.lower() == b.lower()
+                renum = (a in '+-.0123456789' and b in '+-.0123456789')     # numbers may be re-spelled (+1 -> 1, .5 -> 0.5)
+                if not same and not renum and not a.isspace():
+                    return 'entry (%d,%d)<-(%d,%d): source token starts with %r but the output at the generated column starts with %r' % (dl, dc, sl, sc, stail[:6], tail[:6]), text
+    return None, text
+
+
 def oracle_mismatch(css, options):
     """-> None if the real output matches the reference rewrite of the real tokenisation of `css`, else a description"""
     out = replay_sheet(css, options)
@@ -1074,6 +1101,14 @@ def run_property(prop, tier, targets, extra_targets=(), entry=('constructor', 'r
                 css = '@media (a){' + css + ':host{c:d}}@supports (b){:host{e:f}}'
                 opts['convert_host'] = True
             why, out = oracle_mismatch(css, opts)
+            if why is None and cls == 'position':
+                # provenance is only visible in the source map: the witness, the witness with its trailing closers removed (blocks
+                # left open at the end of input), and two fixed sheets
+                for css2 in [css, css.rstrip(')}] '), 'a{b:calc(1px + 2px) c}', 'a{b:calc(1px + 2px', '@media (a){.x{y:z']:
+                    w2, text = map_mismatch(css2, opts)
+                    if w2:
+                        why, out, css = 'source map: ' + w2, {'normal': text}, css2
+                        break
             res.coverage['traces_validated_against_impl'] = res.coverage.get('traces_validated_against_impl', 0) + 1
             if why is not None:
                 res.violation({'engine': 'M', 'harness': tname, 'class': cls},
